@@ -2,7 +2,7 @@
    Statements only; every proof is `exact Lemmas.<name>`. *)
 From Coq Require Import ZArith List Bool Arith.
 Import ListNotations.
-From GV Require Import C03.Model C03.Lemmas.
+From GV Require Import Common.PyInt gen.Gen_links C03.Model C03.Lemmas.
 
 (* the relaxation loop stops within the fuel the model gives it, and more fuel changes nothing *)
 Theorem discover_terminates : forall own links,
@@ -105,3 +105,130 @@ Theorem manager_reads_exactly : forall s0 ops,
                  forall n, Derivable (d_own d) (all_links s) c n -> (k <= n)%nat).
 Proof. exact Lemmas.manager_reads_exactly. Qed.
 Print Assumptions manager_reads_exactly.
+
+(* ---------------------------------------------------------------------------------------------------------------
+   The same facts about the functions TRANSLATED from glue/core/link_manager.py on every run (coq/gen/Gen_links.v;
+   g_accessible / g_discover_with are accessible_links / discover_links of the generated file at the model's types,
+   [iter] is the order in which Python iterates a set, [fuel] bounds the `while True` loop). *)
+
+(* accessible_links keeps, in order, exactly the links all of whose inputs are among the given ids *)
+Theorem gen_accessible_links_spec : forall cids links,
+  g_accessible cids links = filter (fun l => forallb (fun f => mem f cids) (l_from l)) links.
+Proof. exact Lemmas.gen_accessible_links_spec. Qed.
+Print Assumptions gen_accessible_links_spec.
+
+(* the translated discover_links is the hand model's loop: same dict (keys in insertion order, chosen link per key) for
+   every fuel and every iteration order of the sets; it raises nothing but fuel exhaustion, exactly when the model does *)
+Theorem gen_discover_is_model : forall iter, iter_ok iter -> forall fuel d links,
+  g_discover_with iter fuel d links =
+  match discover_loop fuel (g_main d ++ g_coord d) links [] with
+  | Some t => Ok (links_of_table t)
+  | None => Err OutOfFuel
+  end.
+Proof. exact Lemmas.gen_discover_is_model. Qed.
+Print Assumptions gen_discover_is_model.
+
+(* the translated loop terminates within fuel_for links iterations without KeyError / ValueError, and its result depends
+   neither on the fuel beyond that nor on the iteration order of the sets *)
+Theorem gen_discover_total : forall d links,
+  exists t, discover (g_main d ++ g_coord d) links = Some t /\
+    forall iter fuel, iter_ok iter -> (fuel_for links <= fuel)%nat ->
+      g_discover_with iter fuel d links = Ok (links_of_table t).
+Proof. exact Lemmas.gen_discover_total. Qed.
+Print Assumptions gen_discover_total.
+
+(* an attribute is a key of the dict returned by the translated discover_links exactly when it is in the closure of the
+   dataset's main and coordinate attributes under the links and is not one of them *)
+Theorem gen_discover_reachable : forall iter fuel d links r, iter_ok iter -> (fuel_for links <= fuel)%nat ->
+  g_discover_with iter fuel d links = Ok r ->
+  forall c, dict_mem cid_eqb r c = true <->
+            ((exists n, Derivable (g_main d ++ g_coord d) links c n) /\ ~ In c (g_main d ++ g_coord d)).
+Proof. exact Lemmas.gen_discover_reachable. Qed.
+Print Assumptions gen_discover_reachable.
+
+(* there is a rank (defined exactly on the own attributes and the keys) that is the minimum height of a derivation, and
+   the link stored under a key is one of the links given, targets the key, and has all inputs at strictly smaller rank *)
+Theorem gen_discover_wellfounded_min : forall iter fuel d links r, iter_ok iter -> (fuel_for links <= fuel)%nat ->
+  g_discover_with iter fuel d links = Ok r ->
+  let own := g_main d ++ g_coord d in
+  exists rank : cid -> option nat,
+    (forall c, rank c <> None <-> In c own \/ dict_mem cid_eqb r c = true) /\
+    (forall c k, rank c = Some k -> Derivable own links c k /\ forall n, Derivable own links c n -> (k <= n)%nat) /\
+    (forall c l, In (c, l) r ->
+       In l links /\ l_to l = c /\ ~ In c own /\
+       exists k, rank c = Some k /\ forall f, In f (l_from l) -> exists kf, rank f = Some kf /\ (kf < k)%nat).
+Proof. exact Lemmas.gen_discover_wellfounded_min. Qed.
+Print Assumptions gen_discover_wellfounded_min.
+
+(* reading (and selecting) through the dict returned by the translated discover_links: a derivable attribute reads as the
+   composition of the link functions along a derivation of minimum height, any other attribute is incompatible *)
+Theorem gen_discover_value : forall iter fuel d links r env, iter_ok iter -> (fuel_for links <= fuel)%nat ->
+  g_discover_with iter fuel d links = Ok r ->
+  let own := g_main d ++ g_coord d in
+  forall c,
+  (forall n, Derivable own links c n ->
+     exists k v, read own env (table_of_links r) c = Some v /\ DerivVal own links env c k v /\
+                 (forall m, Derivable own links c m -> (k <= m)%nat) /\
+                 select own env (table_of_links r) c 0%Z = Some (v >? 0)%Z) /\
+  ((forall n, ~ Derivable own links c n) ->
+     read own env (table_of_links r) c = None /\ select own env (table_of_links r) c 0%Z = None).
+Proof. exact Lemmas.gen_discover_value. Qed.
+Print Assumptions gen_discover_value.
+
+(* the key set computed by the translated code does not depend on the enumeration order (or multiplicity) of the links,
+   nor on the iteration order of the sets *)
+Theorem gen_discover_order_irrelevant : forall iter iter' fuel fuel' d links links' r r',
+  iter_ok iter -> iter_ok iter' -> (fuel_for links <= fuel)%nat -> (fuel_for links' <= fuel')%nat ->
+  (forall l, In l links <-> In l links') ->
+  g_discover_with iter fuel d links = Ok r -> g_discover_with iter' fuel' d links' = Ok r' ->
+  forall c, dict_mem cid_eqb r c = dict_mem cid_eqb r' c.
+Proof. exact Lemmas.gen_discover_order_irrelevant. Qed.
+Print Assumptions gen_discover_order_irrelevant.
+
+(* LinkManager._component_removed (with remove_link), translated: the registered links that mention the removed attribute
+   are dropped, the others keep their order; update_externally_derivable_components is called once per dropped link
+   (also inside a delay block: remove_link's default update_external=True); list.remove never raises ValueError *)
+Theorem gen_component_removed_spec : forall pool ext c,
+  g_component_removed pool ext c =
+  Ok (filter (fun i => negb (pool_touches pool i c)) ext,
+      repeat (EvUpdate cid link Z) (length (filter (fun i => pool_touches pool i c) ext)), tt).
+Proof. exact Lemmas.gen_component_removed_spec. Qed.
+Print Assumptions gen_component_removed_spec.
+
+(* LinkManager._data_removed, translated: a registered link is dropped exactly when it mentions a component of the removed
+   dataset whose parent is that dataset *)
+Theorem gen_data_removed_spec : forall pool ext d cs,
+  let hit := fun i => existsb (fun x : cid => pool_touches pool i x && (fst x =? d)%Z) cs in
+  g_data_removed pool ext d cs =
+  Ok (filter (fun i => negb (hit i)) ext, repeat (EvUpdate cid link Z) (length (filter hit ext)), tt).
+Proof. exact Lemmas.gen_data_removed_spec. Qed.
+Print Assumptions gen_data_removed_spec.
+
+(* the translated handler and the hand model's drop_links agree on a state whose entry ids name its entries: same
+   registered links afterwards, and the model recomputes exactly when the code calls update at least once *)
+Theorem gen_component_removed_is_drop : forall s c,
+  (forall e, In e (s_ext s) -> pool_entry (s_ext s) (e_id e) = e) ->
+  let kept := filter (fun e => negb (entry_touches_any [c] e)) (s_ext s) in
+  exists n, g_component_removed (s_ext s) (map e_id (s_ext s)) c =
+              Ok (map e_id (s_ext (drop_links [c] s)), repeat (EvUpdate cid link Z) n, tt) /\
+            (n = 0%nat -> drop_links [c] s = s) /\
+            (n <> 0%nat -> drop_links [c] s = recompute (set_ext s kept)).
+Proof. exact Lemmas.gen_component_removed_is_drop. Qed.
+Print Assumptions gen_component_removed_is_drop.
+
+(* the translated loop `for data in data_collection` of update_externally_derivable_components hands every dataset, in
+   order, exactly the dict cid -> DerivedComponent(data, link) of discover's table for the links in force; no exception *)
+Theorem gen_update_installs : forall iter fuel L dc, iter_ok iter -> (fuel_for L <= fuel)%nat ->
+  g_update iter fuel L dc =
+  Ok ([], map (fun d => EvSet cid link gdata d (installed d (fst (disc (g_main d ++ g_coord d) L)))) dc, tt).
+Proof. exact Lemmas.gen_update_installs. Qed.
+Print Assumptions gen_update_installs.
+
+(* run on the datasets of the collection with the links in force, the translated loop installs exactly the tables that the
+   hand model's recompute stores (so manager_inv_reachable / manager_reads_exactly speak about what the translated loop installs) *)
+Theorem gen_update_is_recompute : forall s iter fuel, iter_ok iter -> (fuel_for (all_links s) <= fuel)%nat ->
+  g_update iter fuel (all_links s) (map gdata_of (filter d_member (s_data s))) =
+  Ok ([], map (fun d => EvSet cid link gdata (gdata_of d) (installed (gdata_of d) (d_tbl d)))
+              (filter d_member (s_data (recompute s))), tt).
+Proof. exact Lemmas.gen_update_is_recompute. Qed.
+Print Assumptions gen_update_is_recompute.
